@@ -10,6 +10,7 @@ The callback is checked on the implementation only.
 -/
 import MysticVerif.Proofs.Solver
 import MysticVerif.Proofs.NelderMead
+import MysticVerif.Proofs.PowellS
 import MysticVerif.Props.C05
 
 namespace MysticVerif.C04
@@ -144,5 +145,58 @@ def C04ex : Obj Int Int :=
   { raw := fun x => x * x, pen := fun _ => 0, K := id, inBox := fun _ => true, useRange := false, top := 1000000, add := (· + ·) }
 example : ((DE.run1 C04ex [[7, 3], [1, -8], [0, 2]] (DE.init C04ex [7, 3] 7)).stepLog.map Prod.snd) = [9, 1, 0] := by
   decide
+
+/-! ## Powell on the decorated objective (any line-search oracle) -/
+open MysticVerif.PowellS
+
+/-- **Powell: the best-energy history (`energy_history`: the step monitor's energies plus the deferred entry of the
+iteration in progress) is non-increasing**, given the contract of the line search (`LsMono`: a search never returns
+a point worse than its start - Brent's bracket contains `alpha = 0`; checked on every recorded search) -/
+theorem pw_history_antitone [Sub R] [Mul R] [LinearOrder E] (o : Obj (Pt R) E) (h : Hyp o) (c : PwCfg R E)
+    (ls : Nat → Pt R → Pt R → LsRec R) (hm : LsMono o ls) (record : Bool) (x0 : Pt R) (direc : List (Pt R))
+    (hd : direc ≠ []) (n : Nat) : (reach o c ls record x0 direc n).hist.Pairwise (· ≥ ·) :=
+  (reach_hist h c ls hm record x0 direc hd n).anti
+
+/-- **Powell: the last history entry is the reported best energy** -/
+theorem pw_last_history_is_best [Sub R] [Mul R] [LinearOrder E] (o : Obj (Pt R) E) (c : PwCfg R E)
+    (ls : Nat → Pt R → Pt R → LsRec R) (record : Bool) (x0 : Pt R) (direc : List (Pt R)) (n : Nat) :
+    (reach o c ls record x0 direc n).hist.getLast? = some (reach o c ls record x0 direc n).fval := by
+  have hp : (reach o c ls record x0 direc n).pending = true := by
+    unfold reach
+    cases n with
+    | zero => exact (sweep_stepLog o c ls _).2
+    | succ n =>
+      have : ∀ (m : Nat) (s : Pw R E), s.pending = true → (run o c ls m s).pending = true := by
+        intro m
+        induction m with
+        | zero => intro s hs; exact hs
+        | succ m ih => intro s _; exact ih _ (sweep_stepLog o c ls _).2
+      exact this _ _ (sweep_stepLog o c ls _).2
+  unfold Pw.hist
+  rw [hp]
+  simp
+
+/-- **Powell: the evaluation monitor is append-only** over any number of `_Step`s -/
+theorem pw_log_prefix [Sub R] [Mul R] [LinearOrder E] (o : Obj (Pt R) E) (c : PwCfg R E)
+    (ls : Nat → Pt R → Pt R → LsRec R) (n : Nat) (s : Pw R E) : ∃ t, (run o c ls n s).log = s.log ++ t :=
+  run_log_prefix o c ls n s
+
+/-- **Powell: each entry of the evaluation monitor is `(x, cost x)`** -/
+theorem pw_evalmon_records [Sub R] [Mul R] [LinearOrder E] (o : Obj (Pt R) E) (h : Hyp o) (c : PwCfg R E)
+    (ls : Nat → Pt R → Pt R → LsRec R) (record : Bool) (x0 : Pt R) (direc : List (Pt R)) (hd : direc ≠ []) (n : Nat) :
+    ∀ p ∈ (reach o c ls record x0 direc n).log, p.2 = o.raw p.1 := by
+  intro p hp
+  exact ((reach_inv h c ls record x0 direc hd n).logOK p hp).1
+
+/-- **Powell: exactly one step record per `_Step` at generation >= 2** (the record of an iteration is written by the
+NEXT `_Step`, or by `Finalize`: control model `Ctl`, `powell := true`) -/
+theorem pw_one_record_per_step [Sub R] [Mul R] [LinearOrder E] (o : Obj (Pt R) E) (c : PwCfg R E)
+    (ls : Nat → Pt R → Pt R → LsRec R) (n : Nat) (s : Pw R E) :
+    (run o c ls n s).stepLog.length = s.stepLog.length + n :=
+  run_stepLog_length o c ls n s
+
+/-- at most one record in the evaluation monitor per call of the decorated cost -/
+theorem pw_at_most_one_record_per_call (o : Obj (Pt R) E) (x : Pt R) (log : List (Pt R × E)) :
+    (o.objK x log).2.length ≤ log.length + 1 := objK_log_length o x log
 
 end MysticVerif.C04
